@@ -200,6 +200,235 @@ theorem breeze_legacy_roundtrip :
         (fun p => decide ((({} : Dev).updateFromProps p).breezeMode = breezeLess)) = some b) := by
   decide +kernel
 
+
+/-! ### histories of {setter, refresh, get_capabilities, apply}
+
+The bookkeeping the property quantifies over, as a ghost that runs beside the model: `pending` is the
+set of ids recorded by the setters since the last `apply`; an `apply` with something pending appends
+ONE entry to `writes` (the pending ids) and empties `pending`; nothing else touches either.  The
+theorem below says the model's `_updated_properties` and the property writes in its transmit log are
+this ghost — for every history, whatever the device replies. -/
+
+inductive Op where
+  | breezeAway (b : Bool) | breezeMild (b : Bool) | breezeless (b : Bool)
+  | hAngle (a : Nat) | vAngle (a : Nat) | ieco (b : Bool) | rate (v : Nat)
+  | refresh | getCaps | apply
+
+/-- the id a setter records on a device in state `d` (advertised id for the breeze modes) -/
+def Op.id (d : Dev) : Op → Option Nat
+  | .breezeAway _ => some (if d.supportedProps.contains pidBreezeControl then pidBreezeControl else pidBreezeAway)
+  | .breezeless _ => some (if d.supportedProps.contains pidBreezeControl then pidBreezeControl else pidBreezeless)
+  | .breezeMild _ => some pidBreezeControl
+  | .hAngle _ => some pidSwingLR
+  | .vAngle _ => some pidSwingUD
+  | .ieco _ => some pidIeco
+  | .rate _ => some pidRateSelect
+  | _ => none
+
+def stepOp (r : Run) : Op → R Run
+  | .breezeAway b => pure { r with dev := r.dev.setBreezeAway b }
+  | .breezeMild b => pure { r with dev := r.dev.setBreezeMild b }
+  | .breezeless b => pure { r with dev := r.dev.setBreezeless b }
+  | .hAngle a => pure { r with dev := r.dev.setHAngle a }
+  | .vAngle a => pure { r with dev := r.dev.setVAngle a }
+  | .ieco b => pure { r with dev := r.dev.setIeco b }
+  | .rate v => pure { r with dev := r.dev.setRateSelect v }
+  | .refresh => refresh r
+  | .getCaps => getCapabilities r
+  | .apply => apply r
+
+structure Ghost where
+  pending : List Nat := []
+  writes : List (List Nat) := []
+
+def Ghost.step (g : Ghost) (d : Dev) (op : Op) : Ghost :=
+  match op with
+  | .apply => { pending := [], writes := if g.pending = [] then g.writes else g.writes ++ [g.pending] }
+  | .refresh | .getCaps => g
+  | op => match op.id d with
+    | some i => { g with pending := setAdd g.pending i }
+    | none => g
+
+def runOps : Run → Ghost → List Op → R (Run × Ghost)
+  | r, g, [] => pure (r, g)
+  | r, g, op :: t => do
+    let r1 ← stepOp r op
+    runOps r1 (g.step r.dev op) t
+
+/-- the ids (other than the buzzer, which rides along on every write) of the property writes in a
+    transmit log, one entry per write, in order -/
+def writeIds : Cmd → List (List Nat)
+  | .setProperties ps => [(Lemmas.keys ps).filter (· ≠ pidBuzzer)]
+  | _ => []
+def propWrites (cs : List Cmd) : List (List Nat) := (cs.map writeIds).flatten
+
+theorem propWrites_append (a b : List Cmd) : propWrites (a ++ b) = propWrites a ++ propWrites b := by
+  simp [propWrites]
+
+def setterIds : List Nat :=
+  [pidBreezeControl, pidBreezeAway, pidBreezeless, pidSwingLR, pidSwingUD, pidIeco, pidRateSelect]
+
+/-- every id a setter records has a setting behind it in the property map regenerated from the source
+    this run, and is not the buzzer -/
+theorem setterIds_mapped : ∀ i ∈ setterIds, Generated.propertyMapKeys.contains i = true ∧ i ≠ pidBuzzer := by
+  decide
+
+theorem id_mem (d : Dev) (op : Op) (i : Nat) (h : op.id d = some i) : i ∈ setterIds := by
+  cases op <;> simp only [Op.id, Option.some.injEq, reduceCtorEq] at h <;> subst h <;> (try split) <;> simp [setterIds]
+
+theorem mem_setAdd (s : List Nat) (x y : Nat) : y ∈ setAdd s x ↔ y ∈ s ∨ y = x := by
+  unfold setAdd
+  split
+  · rename_i h
+    constructor
+    · exact Or.inl
+    · rintro (h1 | rfl)
+      · exact h1
+      · simpa using h
+  · simp
+
+theorem getCapabilities_updated (r r' : Run) (h : getCapabilities r = .ok r') :
+    r'.dev.updatedProps = r.dev.updatedProps ∧ propWrites r'.sent = propWrites r.sent := by
+  unfold getCapabilities sendGetCaps at h
+  cases h1 : sendGet r (.getCapabilities false) with
+  | error e => simp [h1, bind, Except.bind] at h
+  | ok o1 =>
+    obtain ⟨u1, s1⟩ := sendGet_updated _ _ o1 h1
+    obtain ⟨r1, rs1⟩ := o1
+    simp only [h1, bind, Except.bind, pure, Except.pure] at h
+    simp only at u1 s1
+    have p1 : propWrites r1.sent = propWrites r.sent := by rw [s1, propWrites_append]; simp [propWrites, writeIds]
+    cases hf : firstCaps rs1 with
+    | none => simp only [hf] at h; cases h; exact ⟨u1, p1⟩
+    | some c =>
+      simp only [hf] at h
+      by_cases ha : c.additional = true
+      · simp only [ha, ↓reduceIte] at h
+        cases h2 : sendGet r1 (.getCapabilities true) with
+        | error e => simp [h2] at h
+        | ok o2 =>
+          obtain ⟨u2, s2⟩ := sendGet_updated _ _ o2 h2
+          obtain ⟨r2, rs2⟩ := o2
+          simp only [h2] at h
+          simp only at u2 s2
+          have p2 : propWrites r2.sent = propWrites r.sent := by
+            rw [s2, propWrites_append, p1]; simp [propWrites, writeIds]
+          cases hs : firstCaps rs2 with
+          | none => simp only [hs] at h; cases h; exact ⟨by simp [Dev.updateCapabilities, u2, u1], p2⟩
+          | some c2 => simp only [hs] at h; cases h; exact ⟨by simp [Dev.updateCapabilities, u2, u1], p2⟩
+      · simp only [ha, Bool.false_eq_true, ↓reduceIte] at h
+        cases h
+        exact ⟨by simp [Dev.updateCapabilities, u1], p1⟩
+
+theorem propWrites_refreshCommands (d : Dev) : propWrites (refreshCommands d) = [] := by
+  unfold refreshCommands
+  simp only [propWrites_append]
+  split <;> split <;> split <;> simp [propWrites, writeIds]
+
+theorem keys_map_pair (l : List Nat) (f : Nat → Nat) : Lemmas.keys (l.map (fun k => (k, f k))) = l := by
+  induction l with
+  | nil => rfl
+  | cons a t ih => simp only [Lemmas.keys, List.map_cons, List.map_map] at ih ⊢; rw [ih]
+
+/-- the ids of the write an `apply` emits are exactly the pending ones (when every pending id is a
+    setter id) -/
+theorem writeIds_changedWrite (d : Dev) (hp : ∀ i ∈ d.updatedProps, i ∈ setterIds) :
+    writeIds (.setProperties (changedWrite d)) = [d.updatedProps] := by
+  have hf : d.updatedProps.filter (fun k => Generated.propertyMapKeys.contains k) = d.updatedProps :=
+    List.filter_eq_self.mpr (fun i hi => (setterIds_mapped i (hp i hi)).1)
+  have hb : (d.updatedProps.filter (· ≠ pidBuzzer)) = d.updatedProps :=
+    List.filter_eq_self.mpr (fun i hi => by simpa using (setterIds_mapped i (hp i hi)).2)
+  simp only [writeIds, changedWrite, hf, Lemmas.keys_dictSet, keys_map_pair]
+  split
+  · rw [hb]
+  · rw [List.filter_append, hb]; simp
+
+/-- what a state must satisfy for the ghost to describe it -/
+structure Tracks (r : Run) (g : Ghost) : Prop where
+  pending : g.pending = r.dev.updatedProps
+  writes : propWrites r.sent = g.writes
+  ids : ∀ i ∈ r.dev.updatedProps, i ∈ setterIds
+
+theorem tracks_step (r r' : Run) (g : Ghost) (op : Op) (ht : Tracks r g) (h : stepOp r op = .ok r') :
+    Tracks r' (g.step r.dev op) := by
+  have setter : ∀ (i : Nat) (d' : Dev), op.id r.dev = some i → d'.updatedProps = setAdd r.dev.updatedProps i →
+      r' = { r with dev := d' } → (match op with | .apply | .refresh | .getCaps => False | _ => True) →
+      Tracks r' (g.step r.dev op) := by
+    intro i d' hid hu hr hk
+    have hg : g.step r.dev op = { g with pending := setAdd g.pending i } := by
+      cases op <;> simp only [Ghost.step, hid] <;> cases hk
+    rw [hg, hr]
+    refine ⟨by simp only [hu, ht.pending], ht.writes, ?_⟩
+    intro j hj
+    simp only [hu] at hj
+    rcases (mem_setAdd _ _ _).mp hj with h1 | rfl
+    · exact ht.ids j h1
+    · exact id_mem _ _ _ hid
+  cases op with
+  | breezeAway b => exact setter _ _ rfl rfl (by simp [stepOp, pure, Except.pure] at h; exact h.symm) trivial
+  | breezeMild b => exact setter _ _ rfl rfl (by simp [stepOp, pure, Except.pure] at h; exact h.symm) trivial
+  | breezeless b => exact setter _ _ rfl rfl (by simp [stepOp, pure, Except.pure] at h; exact h.symm) trivial
+  | hAngle a => exact setter _ _ rfl rfl (by simp [stepOp, pure, Except.pure] at h; exact h.symm) trivial
+  | vAngle a => exact setter _ _ rfl rfl (by simp [stepOp, pure, Except.pure] at h; exact h.symm) trivial
+  | ieco b => exact setter _ _ rfl rfl (by simp [stepOp, pure, Except.pure] at h; exact h.symm) trivial
+  | rate v => exact setter _ _ rfl rfl (by simp [stepOp, pure, Except.pure] at h; exact h.symm) trivial
+  | refresh =>
+    obtain ⟨u, s⟩ := refresh_keeps_updated r r' h
+    refine ⟨by simp only [Ghost.step, u, ht.pending], ?_, by rw [u]; exact ht.ids⟩
+    simp only [Ghost.step]
+    rw [s, propWrites_append, propWrites_refreshCommands, List.append_nil, ht.writes]
+  | getCaps =>
+    obtain ⟨u, s⟩ := getCapabilities_updated r r' h
+    exact ⟨by simp only [Ghost.step, u, ht.pending], by simp only [Ghost.step, s, ht.writes], by rw [u]; exact ht.ids⟩
+  | apply =>
+    obtain ⟨e, h0, h1⟩ := apply_sends_changed r r' h
+    refine ⟨by simp only [Ghost.step, e], ?_, by rw [e]; intro i hi; cases hi⟩
+    simp only [Ghost.step, ht.pending]
+    by_cases hp : r.dev.updatedProps = []
+    · rw [h0 hp, propWrites_append, ht.writes]; simp [hp, propWrites, writeIds]
+    · obtain ⟨d2, hd, _, hs⟩ := h1 hp
+      have hw := writeIds_changedWrite d2 (by rw [hd]; exact ht.ids)
+      rw [hs, propWrites_append, ht.writes]
+      simp only [hp, ↓reduceIte, propWrites, List.map_cons, List.map_nil, List.flatten_cons, List.flatten_nil, hw, hd]
+      simp [writeIds]
+
+/-- **C16 (histories).** For EVERY history of setters, refreshes, capability queries and applies —
+    whatever the device replies to each — the pending set of the device object and the property
+    writes on the wire are the ghost's: a setting is recorded under its advertised id when it changes,
+    survives any number of refreshes and capability queries, is sent by the NEXT apply in one write that
+    carries exactly the ids changed since the previous apply, and is sent by no later apply unless it
+    changes again. -/
+theorem history_tracks (ops : List Op) (r r' : Run) (g g' : Ghost) (ht : Tracks r g)
+    (h : runOps r g ops = .ok (r', g')) : Tracks r' g' := by
+  induction ops generalizing r g with
+  | nil => simp only [runOps, pure, Except.pure, Except.ok.injEq, Prod.mk.injEq] at h; obtain ⟨rfl, rfl⟩ := h; exact ht
+  | cons op t ih =>
+    unfold runOps at h
+    cases h1 : stepOp r op with
+    | error e => simp [h1, bind, Except.bind] at h
+    | ok r1 =>
+      simp only [h1, bind, Except.bind] at h
+      exact ih r1 _ (tracks_step r r1 g op ht h1) h
+
+/-- a fresh device object: nothing pending, nothing written -/
+theorem tracks_init (r : Run) (hu : r.dev.updatedProps = []) (hs : r.sent = []) : Tracks r {} :=
+  ⟨hu.symm, by rw [hs]; rfl, by rw [hu]; intro i hi; cases hi⟩
+
+/-- corollary in the property's words: a change is sent exactly once — after `set; apply; apply` the
+    two applies emit one property write between them, carrying the changed id -/
+theorem changed_sent_once (r r' : Run) (g' : Ghost) (a : Nat) (hu : r.dev.updatedProps = []) (hs : r.sent = [])
+    (h : runOps r {} [.hAngle a, .refresh, .apply, .getCaps, .apply] = .ok (r', g')) :
+    propWrites r'.sent = [[pidSwingLR]] ∧ r'.dev.updatedProps = [] := by
+  have ht := history_tracks _ r r' {} g' (tracks_init r hu hs) h
+  have hg : g' = { pending := [], writes := [[pidSwingLR]] } := by
+    simp only [runOps, bind, Except.bind, pure, Except.pure] at h
+    repeat (split at h; · cases h)
+    simp only [Except.ok.injEq, Prod.mk.injEq] at h
+    rw [← h.2]
+    simp [Ghost.step, Op.id, setAdd]
+  rw [ht.writes, ← ht.pending, hg]
+  exact ⟨rfl, rfl⟩
+
 /-! non-vacuity -/
 example : (({} : Dev).setBreezeAway true).updatedProps = [pidBreezeAway] := rfl
 example : changedWrite (({} : Dev).setRateSelect 50) = [(pidRateSelect, 50), (pidBuzzer, 0)] := by decide
